@@ -10,7 +10,7 @@ cp $SRC/demo.py $WT/demo.py
 cd $WT/python && /venv/bin/python setup.py -q build_ext --inplace -j 4 >/dev/null 2>&1 || { echo "BUILD-CLEAN-FAIL"; }
 cd $WT/python && timeout 900 /venv/bin/python ../demo.py > $WT/clean.out 2>&1; C=$?
 cd $WT && git apply $SRC/patch.diff || { echo "PATCH-DOES-NOT-APPLY"; git -C /repo worktree remove --force $WT; exit 2; }
-cd $WT/python && /venv/bin/python setup.py -q build_ext --inplace -j 4 >/dev/null 2>&1 || { echo "BUILD-PATCHED-FAIL"; }
+touch $WT/python/_tskitmodule.c; cd $WT/python && /venv/bin/python setup.py -q build_ext --inplace -j 4 >/dev/null 2>&1 || { echo "BUILD-PATCHED-FAIL"; }
 cd $WT/python && timeout 900 /venv/bin/python ../demo.py > $WT/patched.out 2>&1; P=$?
 echo "$NAME clean_exit=$C patched_exit=$P"
 tail -2 $WT/clean.out; echo ---; tail -3 $WT/patched.out | cut -c1-400
